@@ -237,3 +237,109 @@ pub fn mutations(templates: &[Template]) -> Vec<Req> {
     out
 }
 
+
+// ------------------------------------------------------------ size sweep
+
+/// A wire name of exactly `n` octets (3 <= n <= 255) made of labels of `fill`.
+pub fn name_of_len(n: usize, fill: u8) -> Vec<u8> {
+    assert!((3..=255).contains(&n));
+    let mut body = n - 1; // octets of labels incl. their length octets
+    let mut chunks: Vec<usize> = Vec::new();
+    while body > 0 {
+        let c = body.min(64);
+        chunks.push(c);
+        body -= c;
+    }
+    // a chunk of 1 would be an empty label: borrow one octet from a neighbour
+    if let Some(last) = chunks.last().copied() {
+        if last == 1 {
+            let k = chunks.len();
+            chunks[k - 1] = 2;
+            chunks[k - 2] -= 1;
+        }
+    }
+    let mut out = Vec::with_capacity(n);
+    for c in chunks {
+        out.push((c - 1) as u8);
+        out.extend(std::iter::repeat(fill).take(c - 1));
+    }
+    out.push(0);
+    assert_eq!(out.len(), n);
+    out
+}
+
+/// Size-sweep family: queries whose QNAME length, TSIG key-name length and
+/// advertised EDNS payload size are swept one octet at a time, so that "end
+/// of question + space reserved for OPT/TSIG" takes every position relative
+/// to the negotiated size limit (the arithmetic of `set_edns`, `set_tsig`,
+/// `set_limit`, `finish`). The TSIG is unsigned garbage (BADKEY / BADSIG
+/// paths), a correctly signed one under the fixture's short and 255-octet key
+/// names, or one naming an unknown algorithm.
+pub fn size_sweep(quick: bool) -> Vec<Req> {
+    use qvlib::reftsig::{self, Alg};
+    use qvlib::templates::{KEY1_NAME, KEY1_SECRET, TSIG_TIME};
+    use qvlib::wire::{c, t, wname, MsgBuilder};
+    let mut out = Vec::new();
+    let l63 = vec![b'x'; 63];
+    let long_key = qvlib::wire::wname_from_labels(&[&l63[..], &l63[..], &l63[..], &vec![b'k'; 61][..]]);
+    let sha256 = Alg::Sha256.wire_name();
+    let unknown_alg = wname("hmac-md5.sig-alg.reg.int.");
+    let mut push = |desc: String, qlen: usize, klen: usize, alg: &[u8], opt: Option<u16>, signed: Option<&[u8]>| {
+        let qname = name_of_len(qlen, b'q');
+        let mut b = MsgBuilder::query(0x5153).question(&qname, t::A, c::IN);
+        if let Some(p) = opt {
+            b = b.opt(p, 0, 0, 0, &[]);
+        }
+        let msg = b.build();
+        let bytes = match signed {
+            Some(key_name) => reftsig::sign_request(&msg, key_name, Alg::Sha256, &sha256, KEY1_SECRET, TSIG_TIME, 300, None).0,
+            None => {
+                let key = name_of_len(klen, b'k');
+                let rd = reftsig::tsig_rdata(alg, TSIG_TIME, 300, &[0xab; 32], 0x5153, 0, &[]);
+                let mut m = msg.clone();
+                let ar = u16::from_be_bytes([m[10], m[11]]) + 1;
+                m[10..12].copy_from_slice(&ar.to_be_bytes());
+                m.extend_from_slice(&key);
+                m.extend_from_slice(&t::TSIG.to_be_bytes());
+                m.extend_from_slice(&c::ANY.to_be_bytes());
+                m.extend_from_slice(&0u32.to_be_bytes());
+                m.extend_from_slice(&(rd.len() as u16).to_be_bytes());
+                m.extend_from_slice(&rd);
+                m
+            }
+        };
+        out.push(Req { family: "size-sweep", desc, bytes });
+    };
+    // (1) key-name length swept one octet at a time
+    let qlens: &[usize] = if quick { &[5, 244, 255] } else { &[5, 60, 120, 200, 244, 250, 255] };
+    for &ql in qlens {
+        for kl in 3..=255usize {
+            for (an, alg) in [("sha256", &sha256), ("unknown-alg", &unknown_alg)] {
+                for opt in [None, Some(512u16), Some(1232), Some(4096)] {
+                    push(format!("qname={ql} key={kl} alg={an} opt={opt:?} unsigned"), ql, kl, alg, opt, None);
+                }
+            }
+        }
+    }
+    // (2) advertised payload size swept one octet at a time
+    let combos: &[(usize, usize)] = if quick { &[(244, 244), (255, 255), (5, 200)] } else { &[(244, 244), (255, 255), (5, 200), (200, 5), (120, 120), (244, 100), (100, 244)] };
+    for &(ql, kl) in combos {
+        for p in 480..=1300u16 {
+            for (an, alg) in [("sha256", &sha256), ("unknown-alg", &unknown_alg)] {
+                push(format!("qname={ql} key={kl} alg={an} opt={p} unsigned"), ql, kl, alg, Some(p), None);
+            }
+        }
+    }
+    // (3) correctly signed requests (short key and the fixture's 255-octet key)
+    for ql in (3..=255usize).step_by(if quick { 4 } else { 1 }) {
+        for opt in [None, Some(512u16), Some(700), Some(1232)] {
+            push(format!("qname={ql} signed key=k1. opt={opt:?}"), ql, 0, &sha256, opt, Some(&wname(KEY1_NAME)));
+            push(format!("qname={ql} signed key=255-octet opt={opt:?}"), ql, 0, &sha256, opt, Some(&long_key));
+        }
+    }
+    for p in (480..=1300u16).step_by(if quick { 3 } else { 1 }) {
+        push(format!("qname=255 signed key=255-octet opt={p}"), 255, 0, &sha256, Some(p), Some(&long_key));
+        push(format!("qname=200 signed key=255-octet opt={p}"), 200, 0, &sha256, Some(p), Some(&long_key));
+    }
+    out
+}
